@@ -42,7 +42,7 @@ long g_tries;
 static long c_reclaim_tries_use(mi_segments_tld_t* tld)      /* (percentage arithmetic with a division: not part of the property) */
 __CPROVER_requires(1) __CPROVER_assigns() __CPROVER_ensures(__CPROVER_return_value == g_tries);
 #define VC_HEAP_OK(heap, tld) (__CPROVER_is_fresh(heap, sizeof(mi_heap_t)) && __CPROVER_is_fresh((heap)->tld, sizeof(mi_tld_t)) && __CPROVER_is_fresh(tld, sizeof(mi_segments_tld_t)) && \
-   __CPROVER_is_fresh(g_subproc, sizeof(mi_subproc_t)) && (heap)->tld->segments.subproc == g_subproc && (tld)->subproc == g_subproc && \
+   __CPROVER_is_fresh(g_subproc, sizeof(mi_subproc_t)) && (heap)->tld->segments.subproc == g_subproc && (tld)->subproc == g_subproc && g_subproc->abandoned_count <= ((size_t)1 << 40) /* a count of segments */ && \
    g_next_n == 0 && g_got_n == 0 && g_reclaim_n == 0 && g_mark_n == 0 && g_trypurge_n == 0)
 /* every segment the cursor hands out is either adopted or put back exactly once: nothing is lost, nothing is adopted twice */
 #define VC_CONSERVED (g_got_n == g_reclaim_n + g_mark_n)
